@@ -44,4 +44,5 @@ def main():
                 print("=== TEXT\n" + t[:800]); print("IMPL ", ia[:500]); print("MODEL", m[:500])
     print("total", len(texts), "mismatches", bad, kinds)
 
-main()
+if __name__ == "__main__":
+    main()
